@@ -166,7 +166,7 @@ func applyTorn(base image, path string, segs []flushSeg, tc tornChoice) image {
 // completed flush would have left (all segments up to and including the torn
 // one, with its header). A page no tree reaches counts as a tree of its own.
 // ok is false when the completed image cannot be walked.
-func c04TreeAtomic(base image, tbl string, segs []flushSeg, tc tornChoice) (atomic bool, ok bool) {
+func c04TreeAtomic(base image, tbl string, segs []flushSeg, tc tornChoice) (atomic bool, ok bool, which string) {
 	full := tc
 	full.subset = uint(1)<<uint(len(segs[tc.seg].pages)) - 1
 	img := applyTorn(base, tbl, segs, full)
@@ -176,14 +176,14 @@ func c04TreeAtomic(base image, tbl string, segs []flushSeg, tc tornChoice) (atom
 	}
 	owners, err := storage.VerifOwners(b, lib.ScratchRoot())
 	if err != nil {
-		return false, false
+		return false, false, ""
 	}
 	type wn struct{ written, skipped int }
 	per := map[string]*wn{}
 	for i, p := range segs[tc.seg].pages {
 		o, has := owners[p.Off]
 		if !has {
-			o = fmt.Sprintf("unreachable@%d", p.Off)
+			o = fmt.Sprintf("unreachable-page-%d", i) // (position among the flush's pages, not the offset)
 		}
 		if per[o] == nil {
 			per[o] = &wn{}
@@ -194,12 +194,20 @@ func c04TreeAtomic(base image, tbl string, segs []flushSeg, tc tornChoice) (atom
 			per[o].skipped++
 		}
 	}
-	for _, x := range per {
+	var ws, ss []string
+	for o, x := range per {
 		if x.written > 0 && x.skipped > 0 {
-			return false, true
+			return false, true, ""
+		}
+		if x.written > 0 {
+			ws = append(ws, o)
+		} else {
+			ss = append(ss, o)
 		}
 	}
-	return true, true
+	sort.Strings(ws)
+	sort.Strings(ss)
+	return true, true, fmt.Sprintf("trees written %v, trees not written %v", ws, ss)
 }
 
 // c04D7Listed: the tree-atomic images inside the D7 predicate that known_findings.json lists one by one
@@ -402,7 +410,7 @@ func (w *world) tearAndRecover(c *lib.Ctx, base image, tbl string, segs []flushS
 	frontier := persistedNextFree(base, tbl)
 	desc := "flush completed"
 	matchKnown := ""
-	treeAtomic := false
+	treeAtomic, treesDesc := false, ""
 	if !tc.complete {
 		s := segs[tc.seg]
 		var written, skipped []uint64
@@ -438,8 +446,8 @@ func (w *world) tearAndRecover(c *lib.Ctx, base image, tbl string, segs []flushS
 		if _, ok := known["D7-torn-flush-with-new-pages"]; ok && len(written) > 0 && len(skipped) > 0 && newWritten+newSkipped > 0 {
 			matchKnown = "D7-torn-flush-with-new-pages"
 			if c04UseList {
-				if at, ok := c04TreeAtomic(base, tbl, segs, tc); ok && at {
-					treeAtomic = true
+				if at, ok, which := c04TreeAtomic(base, tbl, segs, tc); ok && at {
+					treeAtomic, treesDesc = true, which
 				}
 			}
 		} else if _, ok := known["D24-stale-header-after-torn-flush"]; ok && len(written) > 0 && headerCountersChanged(base[tbl], s.header) {
@@ -452,7 +460,11 @@ func (w *world) tearAndRecover(c *lib.Ctx, base image, tbl string, segs []flushS
 	if matchKnown != "" && treeAtomic && c04UseList {
 		// inside the D7 predicate, but every tree is written completely or not at all: these images are
 		// executed in every tier and only the individually listed ones may fail
-		key := fmt.Sprintf("%016x", lib.HashString(strings.Join(c.Trace(), "\n")))
+		// the key names the history, the flush and the trees written - no page offsets, so that it survives
+		// changes of the allocation order
+		tr := c.Trace()
+		key := fmt.Sprintf("%016x", lib.HashString(strings.Join(tr[:len(tr)-1], "\n")+"\n"+treesDesc))
+		c.Logf("         %s", treesDesc)
 		c.Tag("D7-tree-atomic-image-executed")
 		listed := c04D7Listed[key]
 		id := matchKnown
